@@ -103,7 +103,7 @@ def check_items(prop, items, seed=0, do_search=True, per=6):
         it.harvest = r[2] if len(r) > 2 else None
         try:
             defs, expr, meta = S.case_for(it.id, it.decls, it.bpj, entities=it.entities, c20=it.c20, mems=it.mems, harvest=it.harvest,
-                                          parts=getattr(it, "parts", None))
+                                          embed_parts=getattr(it, "parts", None))
         except bpexport.Unsupported as e:
             it.status = "violation"
             it.detail = {"kind": "unsupported-blueprint", "message": str(e)}
